@@ -214,10 +214,13 @@ fn parse_field(base_data_size: usize, field: &Field) -> Result<FieldDefinition> 
                                     format!("bitfield!: Invalid bit-range {lower}..={upper}: the lower bound must not be larger than the upper bound"),
                                 ));
                             }
-                            ranges.push(Range {
-                                start: lower,
-                                end: upper + 1,
-                            });
+                            let Some(end) = upper.checked_add(1) else {
+                                return Err(Error::new_spanned(
+                                    &range_span,
+                                    format!("bitfield!: Invalid bit-range {lower}..={upper}: the upper bound is too large"),
+                                ));
+                            };
+                            ranges.push(Range { start: lower, end });
                         }
                         ArgumentParser::RangeGotLowerLimit(lower) => {
                             if is_range && !is_in_array {
@@ -226,10 +229,13 @@ fn parse_field(base_data_size: usize, field: &Field) -> Result<FieldDefinition> 
                                     "bitfield!: bits requires a single bit, for examples bit(10). bits(10..=12) can be used to specify multiple bits",
                                 ));
                             }
-                            ranges.push(Range {
-                                start: lower,
-                                end: lower + 1,
-                            });
+                            let Some(end) = lower.checked_add(1) else {
+                                return Err(Error::new_spanned(
+                                    &range_span,
+                                    format!("bitfield!: Invalid bit {lower}: the bit index is too large"),
+                                ));
+                            };
+                            ranges.push(Range { start: lower, end });
                         }
                         ArgumentParser::ReadWrite => {
                             provide_getter = true;
@@ -311,7 +317,15 @@ fn parse_field(base_data_size: usize, field: &Field) -> Result<FieldDefinition> 
 
     // We know that ranges has at least one value
     // TODO: Verify all uses of this - some are still good, others not so much
-    let number_of_bits = ranges.iter().fold(0, |a, b| a + b.end - b.start);
+    let Some(number_of_bits) = ranges
+        .iter()
+        .try_fold(0usize, |a, b| a.checked_add(b.end - b.start))
+    else {
+        return Err(Error::new_spanned(
+            field.attrs.first(),
+            format!("bitfield!: Field {} selects too many bits", field_name),
+        ));
+    };
 
     let (field_type_size, primitive_type) = match field_type_size_from_data_type {
         None => (number_of_bits, {
@@ -392,13 +406,19 @@ fn parse_field(base_data_size: usize, field: &Field) -> Result<FieldDefinition> 
             }
         }
 
-        let number_of_bits_indexed =
-            (indexed_count - 1) * indexed_stride.unwrap() + highest_bit_index_in_ranges;
-        if number_of_bits_indexed > base_data_size {
+        // Checked arithmetic: the macro may be built without overflow checks, and a wrapped-around
+        // sum must not pass the bounds check
+        let number_of_bits_indexed = indexed_count
+            .saturating_sub(1)
+            .checked_mul(indexed_stride.unwrap())
+            .and_then(|bits| bits.checked_add(highest_bit_index_in_ranges));
+        if number_of_bits_indexed.map_or(true, |bits| bits > base_data_size) {
+            let required = number_of_bits_indexed
+                .map_or_else(|| "more than usize::MAX".to_string(), |bits| bits.to_string());
             return Err(Error::new_spanned(
                 field.attrs.first(),
                 format!(
-                    "bitfield!: Array-field {} requires {number_of_bits_indexed} bits for the array, but only has ({})", field_name, base_data_size
+                    "bitfield!: Array-field {} requires {required} bits for the array, but only has ({})", field_name, base_data_size
                 )
             ));
         }
